@@ -147,7 +147,7 @@ func (sfr *SystemFlowRepresentation) generateSystemFlow(
 			},
 		}
 
-		currentConn = sfr.appendSystemProcessorsToFlow(
+		currentConn, flowConnections = sfr.appendSystemProcessorsToFlow(
 			processorsToConnect[1:],
 			flowConnections,
 			currentConn,
@@ -239,7 +239,7 @@ func (sfr *SystemFlowRepresentation) appendSystemProcessorsToFlow(
 	flow []internaltypes.FlowConnRepI,
 	currentConn *streamconfig.ProcessorRef,
 	modifyAt string,
-) *streamconfig.ProcessorRef {
+) (*streamconfig.ProcessorRef, []internaltypes.FlowConnRepI) {
 	if modifyAt == publictypes.StreamEnd {
 		for _, userConnection := range flow {
 			if !utils.IsInterfaceNil(userConnection.GetTo().GetStream()) &&
@@ -263,9 +263,9 @@ func (sfr *SystemFlowRepresentation) appendSystemProcessorsToFlow(
 				Processor: toConn,
 			},
 		})
-		*currentConn = *toConn
+		currentConn = toConn
 	}
-	return currentConn
+	return currentConn, flow
 }
 
 func (sfr *SystemFlowRepresentation) GetFlowTemplate(
